@@ -192,7 +192,7 @@ def run_fixed_rate(case, stt):
 
 class Pipe:
     """Plain model + executor.  Steps: ["init", spec], ["slice", a, b, c], ["fast_len"],
-    ["tshift", shiftspec], ["snip", form, t, n], ["cdd", dm, refsel], ["idd", dm, refsel]"""
+    ["tshift", shiftspec], ["snip", form, t, n], ["cdd", dm, refsel], ["idd", dm, refsel], ["roundtrip", how]"""
 
     def __init__(self, stt):
         self.st = stt
@@ -363,6 +363,26 @@ class Pipe:
         self.nops += 1
         check_clock(self.z, self.T, self.r, self.L, self.nops, self.off, self.nsteps, f"op{self.nops}:sample_rate *= {fac}")
         self.st.label("op_set_rate")
+
+    def op_roundtrip(self, how):
+        """the pipeline continues on a pickle / copy / deepcopy of the current signal (what another process, or a caller who keeps the
+        original, works with): the same clock, to the last bit"""
+        import copy
+        import pickle
+
+        with lib(how + " of the current signal"):
+            y = {"pickle": lambda q: pickle.loads(pickle.dumps(q)), "copy": copy.copy, "deepcopy": copy.deepcopy}[how](self.z)
+        check(type(y) is type(self.z) and len(y) == len(self.z), "{}: {} of {} samples became {} of {}", how, type(self.z).__name__, len(self.z),
+              type(y).__name__, len(y))
+        if self.z.start_time is None:
+            check(y.start_time is None, "{}: a start time appeared", how)
+        else:
+            check(y.start_time is not None and O.T(y.start_time) == O.T(self.z.start_time) and y.start_time.scale == self.z.start_time.scale,
+                  "{}: start_time moved by {} s", how, None if y.start_time is None else float(O.T(y.start_time) - O.T(self.z.start_time)))
+        check(O.hz(y.sample_rate) == O.hz(self.z.sample_rate), "{}: sample_rate {} -> {}", how, self.z.sample_rate, y.sample_rate)
+        self.z = y
+        check_clock(self.z, self.T, self.r, self.L, self.nops, self.off, self.nsteps, f"op{self.nops}:{how}")
+        self.st.label("op_roundtrip_" + how)
 
     def op_refused(self, pick):
         """an invalid attribute assignment on the current object: refused, and the clock is exactly what it was"""
@@ -542,6 +562,10 @@ class PipeMachine(HistoryMachine):
     @rule(t0=G.time0())
     def set_start(self, t0):
         self.do(["set_start", t0])
+
+    @rule(how=st.sampled_from(["pickle", "copy", "deepcopy"]))
+    def roundtrip(self, how):
+        self.do(["roundtrip", how])
 
     @rule(pick=st.integers(0, 1000))
     def refused(self, pick):
